@@ -210,7 +210,7 @@ func TestC12Twin(t *testing.T) {
 	rapid.Check(t, func(rt *rapid.T) {
 		runTwin(rt, &twinOpts{prop: "C12", profile: p, choose: func(rt *rapid.T, pw *world.World, scans []*world.ScanRecord) *perturbation {
 			changed := rapid.IntRange(0, len(pw.Cfg.Groups)-1).Draw(rt, "changedGroup")
-			kind := rapid.SampledFrom([]string{"pods", "thresholds", "rates", "pretaint", "graces"}).Draw(rt, "perturbation")
+			kind := rapid.SampledFrom([]string{"pods", "thresholds", "rates", "pretaint", "graces", "faults"}).Draw(rt, "perturbation")
 			pt := &perturbation{label: fmt.Sprintf("group %d: %s", changed, kind), compare: otherGroupCompare("C12", "other-group-change", changed)}
 			switch kind {
 			case "pods": // a large extra pod for the changed group right after start-up
@@ -222,6 +222,33 @@ func TestC12Twin(t *testing.T) {
 						at++
 					}
 					return append(append(append([]world.Action{}, log[:at]...), extra), log[at:]...)
+				}
+			case "faults": // every API call on the changed group's nodes fails during one drawn scan
+				var targets []string
+				for _, n := range scans[0].Groups[changed].GV.Nodes {
+					targets = append(targets, n.Name)
+				}
+				if len(targets) == 0 {
+					return nil
+				}
+				nth := rapid.IntRange(0, len(scans)-1).Draw(rt, "faultedScan")
+				pt.log = func(log []world.Action) []world.Action {
+					var fs []sim.Fault
+					for _, name := range targets {
+						fs = append(fs, sim.Fault{Kind: "", Nth: -1, Node: name})
+					}
+					out := []world.Action{}
+					seen := 0
+					for _, a := range log {
+						if a.Op == "scan" {
+							if seen == nth {
+								out = append(out, world.Action{Op: "fault", Faults: fs})
+							}
+							seen++
+						}
+						out = append(out, a)
+					}
+					return out
 				}
 			case "thresholds":
 				pt.cfg = func(c *world.Config) {
